@@ -342,3 +342,23 @@ def buffer3_scope(level="thorough"):
                             yield "S-buffer3", mkcase(
                                 cfg, {"wa": wa, "wb": wf_short,
                                       "wc": wf_short})
+
+
+def thorough_override(case, i=0):
+    """Per-case deviation budgets for the thorough tier.  Two deviations of
+    every kind on every case would be tens of millions of executions; the
+    second deviation is spent where it costs least per case."""
+    kind = case["alg"]["kind"]
+    M = len(case["cfg"]["machines"])
+    nobs = len(case["cfg"]["obs"])
+    if kind.startswith("adv"):
+        if keep(i, 5) and nobs <= 2:
+            return {"adv": 2, "tie": 0, "delay": 0}
+        return {"adv": 1, "tie": 1, "delay": 0}
+    if kind in ("dynamic", "greedy"):
+        return {"delay": 1, "tie": 1}
+    if nobs >= 3:
+        return {"delay": 1, "tie": 1}
+    if M <= 2:
+        return {"delay": 2, "tie": 1}
+    return {"delay": 1, "tie": 2}
